@@ -492,22 +492,23 @@ func (g *gen) optsArg(o rosed.Options) string {
 	return encOpts(o)
 }
 
-// ill-formed byte sequences (Go decodes every such byte as a separate U+FFFD of width 1)
-var rawSeqs = []string{"\xe9", "\xff", "\x80", "\xc0\xaf", "\xe4\xb8", "\xed\xa0\x80", "\xf0\x9f\x87", "\xc3"}
+// ill-formed bytes (Go decodes every such byte as a separate U+FFFD of width 1).  Only bytes that
+// can never become part of a well-formed sequence whatever is inserted or deleted around them:
+// bytes that are invalid everywhere (C0, C1, F5–FF) and lone lead bytes — and NO continuation
+// bytes (80–BF), because two ill-formed fragments such as F0 9F 87 + 87 would join into a valid
+// code point after an edit, which the model's atoms (one atom per ill-formed byte) cannot follow.
+var rawSeqs = []string{"\xff", "\xc0", "\xc1\xfe", "\xf5", "\xc3", "\xe4", "\xf0", "\xe9", "\xed\xf8"}
 
-// dirty inserts one to three ill-formed byte sequences into t, mostly at character
-// boundaries, sometimes in the middle of a multi-byte character (which truncates it).
+// dirty inserts one to three ill-formed byte sequences into t at character boundaries.
 // Only for groups whose operations move bytes without re-encoding them (selection, commit,
-// insert/delete/overtype, line splitting): an operation that goes through []rune and back
-// replaces the bytes by U+FFFD, which the model does not represent.
+// insert/delete, the text under Overtype, line splitting): an operation that goes through []rune
+// and back replaces the bytes by U+FFFD, which the model does not represent.
 func (g *gen) dirty(t string) string {
 	n := 1 + g.r.Intn(3)
 	for i := 0; i < n; i++ {
 		pos := g.r.Intn(len(t) + 1)
-		if !g.chance(0.2) {
-			for pos > 0 && pos < len(t) && !utf8.RuneStart(t[pos]) {
-				pos--
-			}
+		for pos > 0 && pos < len(t) && !utf8.RuneStart(t[pos]) {
+			pos--
 		}
 		t = t[:pos] + g.pick(rawSeqs) + t[pos:]
 	}
